@@ -4,6 +4,7 @@ import (
 	"fmt"
 	"testing"
 	"time"
+	_ "time/tzdata"
 
 	otp "github.com/ja7ad/otp"
 	"pgregory.net/rapid"
@@ -29,7 +30,18 @@ type c02Case struct {
 	NilParam bool         `json:"nil_param"`
 }
 
-var zones = []*time.Location{time.UTC, time.Local, time.FixedZone("p14", 14*3600), time.FixedZone("m12", -12*3600), time.FixedZone("npt", 5*3600+45*60)}
+// zones 5..7 observe daylight saving time (tz database embedded through time/tzdata): in the hour
+// that wall clocks repeat, an instant is not determined by its wall-clock reading.
+var zones = []*time.Location{time.UTC, time.Local, time.FixedZone("p14", 14*3600), time.FixedZone("m12", -12*3600), time.FixedZone("npt", 5*3600+45*60),
+	mustZone("America/New_York"), mustZone("Europe/London"), mustZone("Australia/Lord_Howe")}
+
+func mustZone(name string) *time.Location {
+	l, err := time.LoadLocation(name)
+	if err != nil {
+		panic("HARNESS: tz database: " + err.Error())
+	}
+	return l
+}
 
 // instant builds the time.Time of a case. A monotonic reading is attached by
 // deriving the value from time.Now(); it is kept only if it denotes exactly the
@@ -125,6 +137,9 @@ func checkC02(c c02Case) verdict {
 		}
 	}
 	// generation and validation resolve parameters identically
+	if e := retainCheck(got, "TOTP code"); e != nil {
+		return bad(true, labels, "%v", e)
+	}
 	okk, verr := otp.ValidateTOTP(secret, got, t, param)
 	if !okk || verr != nil {
 		return bad(nt, labels, "ValidateTOTP rejects the code GenerateTOTP returned for the same instant and parameters (period=%d nil=%v): %v, %v", period, c.NilParam, okk, verr)
@@ -133,7 +148,7 @@ func checkC02(c c02Case) verdict {
 }
 
 var c02Main = newPart("C02", "main",
-	"rapid: unix seconds in [0,2^62) centred on step boundaries (n*p + {-2..2}), small, ~now, huge x nanoseconds x 5 locations x monotonic reading x period {0,1,2,29,30,31,59,60,3600,2^31,2^32-1,2^32,uniform} x secrets/digits/hashes of C01 x nil/explicit param; oracle: reference HOTP at floor(unix/p') for the instant, the first and last second of its step and the neighbouring seconds of both adjacent steps; ValidateTOTP must accept the generated code with the same parameters; non-trivial = within 2 s of a boundary or period != 30 or nsec != 0 or zone != UTC or monotonic or period > t",
+	"rapid: unix seconds in [0,2^62) centred on step boundaries (n*p + {-2..2}), small, ~now, huge x nanoseconds x 8 locations (UTC, Local, fixed offsets, three DST-observing zones incl. instants within an hour of a clock change) x monotonic reading x period {0,1,2,29,30,31,59,60,3600,2^31,2^32-1,2^32,uniform} x secrets/digits/hashes of C01 x nil/explicit param; oracle: reference HOTP at floor(unix/p') for the instant, the first and last second of its step and the neighbouring seconds of both adjacent steps; ValidateTOTP must accept the generated code with the same parameters; non-trivial = within 2 s of a boundary or period != 30 or nsec != 0 or zone != UTC or monotonic or period > t",
 	checkC02)
 
 var c02Periods = []uint64{0, 0, 1, 2, 29, 30, 30, 31, 59, 60, 3600, 86400, 1 << 31, 1<<32 - 1, 1 << 32}
@@ -194,6 +209,13 @@ func genC02(t *rapid.T) c02Case {
 	}
 	c.Zone = rapid.IntRange(0, len(zones)-1).Draw(t, "zone")
 	c.Mono = rapid.Bool().Draw(t, "mono")
+	if c.Zone >= 5 && rapid.Bool().Draw(t, "nearTransition") {
+		// an instant within about an hour of the zone's next clock change (covers the repeated and the skipped hour)
+		base := time.Unix(int64(rapid.Uint64Range(1_000_000_000, 4_000_000_000).Draw(t, "dstBase")), 0).In(zones[c.Zone])
+		if _, end := base.ZoneBounds(); !end.IsZero() {
+			c.Unix = end.Unix() + int64(rapid.IntRange(-3700, 3700).Draw(t, "dstDelta"))
+		}
+	}
 	return c
 }
 
